@@ -1135,6 +1135,53 @@ fn numeric_case(template: &str, lua_expr: &str, numeral: &str) -> (Argv, Argv, A
 }
 
 // ---------------------------------------------------------------------------------------------
+// part (d): one script cannot see what an earlier script left in the interpreter
+// ---------------------------------------------------------------------------------------------
+
+/// scripts that leave something behind in the Lua state (none of them touches the keyspace)
+const POLLUTERS: &[(&str, &str)] = &[
+    ("global", "g = 41 return 1"),
+    ("global-from-argv", "base = 7 return base"),
+    ("library-table", "string.x = 5 return 1"),
+    ("library-function", "table.foo = function() return 7 end return 1"),
+    ("redis-table", "redis.helper = 1 return 1"),
+    ("global-metatable", "pcall(function() setmetatable(_G, {__index = function() return 99 end}) end) return 1"),
+    ("rng-state", "math.randomseed(7) return 1"),
+    ("keys-argv", "KEYS = {'x'} ARGV = {'y'} return 1"),
+];
+const PROBES: &[&str] = &[
+    "return tostring(g)",
+    "return tostring(base)",
+    "if v then base = tonumber(v) end return tostring(base or 0)",
+    "return tostring(string.x)",
+    "return type(table.foo)",
+    "return tostring(redis.helper)",
+    "return tostring(some_undefined_name)",
+    "return tostring(#KEYS) .. ':' .. tostring(#ARGV)",
+];
+
+/// Err((signature, detail)) when the probe answers differently after the polluter than on a fresh executor.
+fn isolation_case(pi: usize, qi: usize) -> Result<(), (String, String)> {
+    let eval = |script: &str| -> Argv { vec![b"EVAL".to_vec(), script.as_bytes().to_vec(), b"0".to_vec()] };
+    let mut fresh = CommandExecutor::new();
+    let want = resp::show(&exec_argv(&mut fresh, &eval(PROBES[qi])));
+    let mut used = CommandExecutor::new();
+    let _ = exec_argv(&mut used, &eval(POLLUTERS[pi].1));
+    // a second executor on the same thread too (another shard, another client)
+    let mut other = CommandExecutor::new();
+    for (who, ex) in [("the same executor", &mut used), ("another executor of the same thread", &mut other)] {
+        let got = resp::show(&exec_argv(ex, &eval(PROBES[qi])));
+        if got != want {
+            return Err((
+                format!("lua-isolation: a script sees what an earlier script left behind ({})", POLLUTERS[pi].0),
+                format!("EVAL \"{}\" 0 ran first; then EVAL \"{}\" 0 on {who} replies {got}; on a fresh executor it replies {want}", POLLUTERS[pi].1, PROBES[qi]),
+            ));
+        }
+    }
+    Ok(())
+}
+
+// ---------------------------------------------------------------------------------------------
 // main
 // ---------------------------------------------------------------------------------------------
 
@@ -1142,6 +1189,14 @@ fn replay(path: &std::path::Path, keywords: &BTreeSet<String>) -> ! {
     let r = vh::report::load_replay(path);
     let part = r["part"].as_str().unwrap_or("a").to_string();
     let violated = match part.as_str() {
+        "d" => match isolation_case(r["polluter"].as_u64().unwrap_or(0) as usize, r["probe"].as_u64().unwrap_or(0) as usize) {
+            Err((sig, detail)) => {
+                println!("{detail}");
+                println!("signature: {sig}");
+                true
+            }
+            Ok(()) => false,
+        },
         "a" => {
             let f = frame_from_json(&r["frame"]);
             println!("frame: {}", show_frame(&f));
@@ -1656,6 +1711,21 @@ fn main() {
         rep.violation(sig.clone(), format!("{detail} [{count} (state, template, number) cases have this signature]"), replay.clone());
     }
     timing("c done");
+    // ---------------------------------------------------------------- part (d): script isolation
+    let mut d_cases = 0u64;
+    {
+        let mut seen = BTreeSet::new();
+        for pi in 0..POLLUTERS.len() {
+            for qi in 0..PROBES.len() {
+                d_cases += 1;
+                if let Err((sig, detail)) = std::panic::catch_unwind(|| isolation_case(pi, qi)).unwrap_or_else(|p| Err(("lua-isolation: panic".to_string(), vh::panic_text(&p)))) {
+                    if seen.insert(sig.clone()) {
+                        rep.violation(sig, detail, json!({"part": "d", "polluter": pi, "probe": qi}));
+                    }
+                }
+            }
+        }
+    }
     // ---------------------------------------------------------------- evidence
     if known.is_empty() {
         rep.machinery_failure("the Lua path knows no data command at all — probe logic or source layout changed");
@@ -1723,6 +1793,7 @@ fn main() {
             "RESP->Lua->RESP conversion demanded of the Lua path: status->{ok=}->status, integer<->integer, bulk<->string, nil bulk/nil array->false->nil bulk, array->table->array element-wise, error raised by redis.call -> error reply containing the message, error table from redis.pcall -> error reply with exactly the message; SMEMBERS/HKEYS/HVALS/KEYS/HGETALL compared as multisets".into(),
             "for frames rejected by both parsers only 'the Lua path also fails and changes nothing' is demanded, not the error text".into(),
             "the script uses (unpack or table.unpack) because the embedded Lua is 5.4; executors driven as on the simulation path: set_time(now) then execute; all paths at the same instant".into(),
+            format!("part (d): {d_cases} (polluter, probe) pairs: a script that leaves something in the interpreter (a global, a field of a library table, RNG state, KEYS/ARGV) runs first; a probe script must then answer exactly as on a fresh executor, on the same executor and on another executor of the same thread"),
             "part (c): every (state, template, number) over 19 command templates with one numeric position and 22 Lua number expressions (Lua integers, integer-valued floats inside/outside the i64 range, short binary fractions): the script passes the Lua NUMBER, the direct twin sends the decimal numeral of exactly that value; same oracle as part (b)".into(),
             "outside part (b): server/connection/transaction/scripting commands and SPOP/RANDOMKEY (random by specification)".into(),
         ],
